@@ -168,6 +168,12 @@ func (l *SimLog) SubtreeProof(f string, n, start, end int64) []tlog.Hash {
 // upload uses the other fork). maxPackages > 0 truncates after that many
 // packages; cutBytes > 0 drops that many bytes from the end.
 func (l *SimLog) AddEntriesBody(f, ef string, start, end, treeSize int64, ticket []byte, maxPackages int, cutBytes int) []byte {
+	return l.AddEntriesBodyEF0(f, ef, ef, start, end, treeSize, ticket, maxPackages, cutBytes)
+}
+
+// AddEntriesBodyEF0 is AddEntriesBody with the entries of the first package
+// taken from fork ef0.
+func (l *SimLog) AddEntriesBodyEF0(f, ef0, ef string, start, end, treeSize int64, ticket []byte, maxPackages int, cutBytes int) []byte {
 	var b []byte
 	b = binary.BigEndian.AppendUint16(b, uint16(len(l.Origin)))
 	b = append(b, l.Origin...)
@@ -188,7 +194,11 @@ func (l *SimLog) AddEntriesBody(f, ef string, start, end, treeSize int64, ticket
 		ts := roundedStart + i*256
 		ps := max(start, ts)
 		pe := min(end, ts+256)
-		for _, e := range l.forks[ef].entries[ps:pe] {
+		src := ef
+		if i == 0 {
+			src = ef0
+		}
+		for _, e := range l.forks[src].entries[ps:pe] {
 			b = binary.BigEndian.AppendUint16(b, uint16(len(e)))
 			b = append(b, e...)
 		}
